@@ -16,51 +16,6 @@ import WacProofs.Lemmas.GraphAbsQueries
 namespace Wac.Props.C10Post
 open Wac Wac.Graph Wac.Props.C10
 
-/-- the export index found at an instantiation of `p` is the index in `p`'s export list -/
-theorem aliasIdx_pkgExports {ctx : Ctx} {g' : Graph} (hinv' : Inv ctx g') {pi : Nat} {p : PkgId} {plugD : PkgDef}
-    {name : Str} {j : Nat} (hpi : InstOf g' pi p) (hpd : g'.pkgOf p = .ok plugD) (hai : AliasIdx ctx g' pi name j) :
-    ∃ k, alFull (ctx.pkgExports plugD) name = some (j, k) := by
-  obtain ⟨x, exps, k, hx, hexps, hfull⟩ := hai
-  obtain ⟨x', hx', hinst, hpkg⟩ := hpi
-  rw [hx] at hx'
-  cases hx'
-  have hitem : x.item = plugD.instKind := by
-    have h2 := (hinv'.node hx).2.1
-    unfold Node.isInst at hinst
-    cases hk : x.kind with
-    | instantiation sat =>
-      rw [hk] at h2
-      simp only at h2
-      obtain ⟨_, _, pid, hpid, pd, hpd', hit⟩ := h2
-      rw [Option.mem_def, hpkg] at hpid
-      cases hpid
-      have := toOption_mem.mp hpd'
-      rw [hpd] at this
-      cases this
-      exact hit
-    | definition ty => simp [hk] at hinst
-    | «import» nm => simp [hk] at hinst
-    | «alias» => simp [hk] at hinst
-  have hpe : ctx.pkgExports plugD = exps := by
-    unfold Ctx.pkgExports
-    rw [← hitem, hexps]; rfl
-  exact ⟨k, by rw [hpe]; exact hfull⟩
-
-/-- the import index found at an instantiation of the socket is the index in its import list -/
-theorem argIdx_imports {g' : Graph} {si : Nat} {socket : PkgId} {socketD : PkgDef} {name : Str} {idx : Nat}
-    (hsi : InstOf g' si socket) (hs : g'.pkgOf socket = .ok socketD) (ha : ArgIdx g' si name idx) :
-    ∃ k', alFull socketD.imports name = some (idx, k') := by
-  obtain ⟨y, pid, d, k', hy, hypkg, hd, hfull'⟩ := ha
-  obtain ⟨y', hy', _, hpkg'⟩ := hsi
-  rw [hy] at hy'
-  cases hy'
-  rw [hpkg'] at hypkg
-  cases hypkg
-  have := pkgAt_of_pkgOf hs
-  rw [this] at hd
-  cases hd
-  exact ⟨k', hfull'⟩
-
 /-- after a successful `plug`, about the socket instantiation `si = g.fresh.node`:
     * it is new and an instantiation of the socket package;
     * (`only_offers_passed`) every edge into it is the argument edge of an offer: it comes from
@@ -186,20 +141,6 @@ example : (plug ctxP (run ctxP {} [.register socketP, .register plugP]).1 [⟨1,
     (run ctxP {} [.register socketP, .register plugP]).1.fresh.node = 0 ∧
     ((plug ctxP (run ctxP {} [.register socketP, .register plugP]).1 [⟨1, 0⟩] ⟨0, 0⟩).1.edges.filter
       (fun e => e.dst == 0)) = [⟨2, 0, .arg 0⟩] := by decide
-
-theorem mem_zip_range {α : Type} (l : List α) {i : Nat} {x : α} (h : l[i]? = some x) :
-    (i, x) ∈ (List.range l.length).zip l := by
-  have hlt : i < l.length := by
-    rcases Nat.lt_or_ge i l.length with hl | hl
-    · exact hl
-    · rw [List.getElem?_eq_none hl] at h; cases h
-  rw [List.mem_iff_getElem]
-  refine ⟨i, by simp [hlt], ?_⟩
-  have hx : l[i] = x := by
-    have := List.getElem?_eq_getElem hlt
-    rw [this] at h
-    exact Option.some.inj h
-  simp [hx]
 
 /-- `unmatched_stay_imports`: after a successful `plug`, a socket import (at index `idx`, name
     `nm`, kind `k`) that no plug of the list offers anything for has no argument edge at the
